@@ -37,6 +37,7 @@ type Clause struct {
 type LoopSpec struct {
 	Ordinal    int
 	Invariants []Clause
+	Hints      []Clause
 	Decreases  *Clause
 }
 
@@ -64,6 +65,12 @@ type Contract struct {
 	Cases        *CaseSplit
 	FnDecreases  *Clause
 	Partial      bool
+	ExitHints    []Clause
+	IsLemma      bool
+	LemmaPTypes  []ast.Expr
+	IndVar       string
+	IndFrom      ast.Expr
+	Uses         []string
 	Asserts      map[string][]Clause // call-site assertions
 }
 
@@ -283,7 +290,10 @@ var clauseKeywords = map[string]bool{
 	"ensures": true, "assigns": true, "loop": true, "invariant": true, "decreases": true,
 	"func": true, "spec": true, "axiom": true, "instantiate": true, "nosafety": true,
 	"onlysafety": true, "unfold": true, "assert": true, "cases": true, "partial": true,
+	"lemma": true, "induction": true, "uses": true, "hint": true,
 }
+
+var lemmaRe = regexp.MustCompile(`^([A-Za-z_][A-Za-z0-9_]*)\s*\(([^)]*)\)$`)
 
 var labelRe = regexp.MustCompile(`^([A-Za-z_][A-Za-z0-9_\-]*):(?:[^:]|$)`)
 
@@ -356,6 +366,30 @@ func (e *Engine) parseContracts(body, pkgPath, file string, line0 int) error {
 			}
 			e.Contracts[c.Key] = c
 			cur, curLoop = c, nil
+		case "lemma":
+			// lemma NAME(p1 T1, p2 T2): a proved (by induction) fact about spec functions
+			m := lemmaRe.FindStringSubmatch(strings.TrimSpace(rc.text))
+			if m == nil {
+				return fmt.Errorf("%s:%d: bad lemma header", file, rc.line)
+			}
+			c := &Contract{Key: "lemma:" + m[1], PkgPath: pkgPath, IsLemma: true, File: file, Line: rc.line,
+				Loops: map[int]*LoopSpec{}, Asserts: map[string][]Clause{}}
+			if strings.TrimSpace(m[2]) != "" {
+				for _, p := range strings.Split(m[2], ",") {
+					fs := strings.Fields(strings.TrimSpace(p))
+					if len(fs) != 2 {
+						return fmt.Errorf("%s:%d: bad lemma parameter %q", file, rc.line, p)
+					}
+					te, err := ParseSpecType(fs[1])
+					if err != nil {
+						return fmt.Errorf("%s:%d: %v", file, rc.line, err)
+					}
+					c.ParamNames = append(c.ParamNames, fs[0])
+					c.LemmaPTypes = append(c.LemmaPTypes, te)
+				}
+			}
+			e.Contracts[c.Key] = c
+			cur, curLoop = c, nil
 		case "spec":
 			sf, err := parseSpecFn(rc.text, pkgPath)
 			if err != nil {
@@ -390,6 +424,19 @@ func (e *Engine) parseContracts(body, pkgPath, file string, line0 int) error {
 				cur.NoSafety = true
 			case "partial":
 				cur.Partial = true
+			case "uses":
+				cur.Uses = append(cur.Uses, strings.Fields(strings.ReplaceAll(rc.text, ",", " "))...)
+			case "induction":
+				// induction <param> from <lo>
+				fs := strings.Fields(rc.text)
+				if len(fs) != 3 || fs[1] != "from" {
+					return fmt.Errorf("%s:%d: induction <param> from <lower bound>", file, rc.line)
+				}
+				lo, err := ParseSpecExpr(fs[2])
+				if err != nil {
+					return fmt.Errorf("%s:%d: %v", file, rc.line, err)
+				}
+				cur.IndVar, cur.IndFrom = fs[0], lo
 			case "onlysafety":
 				cur.OnlySafety = true
 			case "unfold":
@@ -462,6 +509,24 @@ func (e *Engine) parseContracts(body, pkgPath, file string, line0 int) error {
 					cl.Label = fmt.Sprint(len(curLoop.Invariants) + 1)
 				}
 				curLoop.Invariants = append(curLoop.Invariants, cl)
+			case "hint":
+				// hint <expr>: an assertion proved and then assumed — at the start of the loop body
+				// (inside `loop k`) or at the function's exit; used to put lemma instances in front of the solver
+				cl, err := mkClause(rc)
+				if err != nil {
+					return err
+				}
+				if curLoop != nil {
+					if cl.Label == "" {
+						cl.Label = fmt.Sprint(len(curLoop.Hints) + 1)
+					}
+					curLoop.Hints = append(curLoop.Hints, cl)
+				} else {
+					if cl.Label == "" {
+						cl.Label = fmt.Sprint(len(cur.ExitHints) + 1)
+					}
+					cur.ExitHints = append(cur.ExitHints, cl)
+				}
 			case "decreases":
 				cl, err := mkClause(rc)
 				if err != nil {
